@@ -299,7 +299,7 @@ def rules(ck, P):
             ck.check(mg == [wire.MAGIC[name]], "R-WIRE", name + "|magic", "magic bytes are '%s'" % wire.MAGIC[name], "magic written is %s" % mg, ir.loc(wb))
     # record-length constants used by siblings
     for cq, want in (("types::file_header::HEADER_LENGTH", 66), ("types::block_definition::BLOCK_INDEX_LENGTH", 33), ("types::tile_index::TILE_INDEX_LENGTH", 12)):
-        v = [v_ for k, v_ in ir.CONSTS.items() if k.endswith(cq.split("::")[-1])]
+        v = [v_ for k, v_ in ir.CONSTS.items() if k.endswith("::" + cq.split("::")[-1]) and "::versatiles::types::" in k]
         ck.check(v == [want], "R-WIRE", "const|" + cq.split("::")[-1], "%s = %d" % (cq.split("::")[-1], want), "%s = %s, layout says %d" % (cq.split("::")[-1], v, want))
     # PMTiles directory columns
     se, fb = fn(P, "entries_v3::EntriesSliceV3::serialize_entries"), fn(P, "entries_v3::EntriesV3::from_blob")
@@ -627,7 +627,9 @@ def rules(ck, P):
         okx = exts.get("extension_format") == "format" and exts.get("extension_compression") == "compression" if "exts" in dir() else False
         ck.check(okw and okx, "R-NAME", fmt + "|writer", "member name = z/x/y + extension(format) + extension(compression) (%s)" % desc, "member name arguments are %s, extensions %s" % (desc, exts), ir.loc(w))
         # reader: compression stripped first, then format; z,x,y parsed as u8,u32,u32; TileCoord3::new(x,y,z)
-        calls = [absint.vname(n.get("q") or "").rsplit("::", 2)[-2:] for n in _order(r["body"]) if n.get("k") == "call" and (n.get("q") or "").endswith("::from_filename")]
+        # (private helpers of the reader are looked into: the name may be taken apart in `fn parse_tile_filename`)
+        r_inl = ir.inline_helpers(P, r, ir.same_impl_helper(r))
+        calls = [absint.vname(n.get("q") or "").rsplit("::", 2)[-2:] for n in _order(r_inl["body"]) if n.get("k") == "call" and (n.get("q") or "").endswith("::from_filename")]
         order_ok = [c[0] for c in calls] == ["TileCompression", "TileFormat"]
         tc = [n for n in ir.walk_nodes(r["body"]) if n.get("k") == "call" and (n.get("q") or "").endswith("TileCoord3::new")]
         # TileCoord3::new(x, y, z): three distinct locals typed (u32, u32, u8) whose definitions appear in path order z, x, y
